@@ -64,18 +64,18 @@ def genDump (g : Gen) : String :=
   s!"started={g.started} shifted={g.shifted} w={g.w} tracks={g.tracks} latest={g.latest} ctr\{{ctrDump g.ctrs}}" ++
   String.join ((sortBufs g.bufs).map fun p => s!" {p.1}\{{bufDump p.2}}")
 
-def tlStr (first : Nat) (tls : List (List Item)) : String :=
-  joinWith "|" (tls.map fun tl =>
-    -- as a client reads the written S list
-    s!"sn={first}:" ++ String.join ((expandS (buildS tl) 0).map fun p => s!"({p.1},{p.2})"))
+def tlStr (first : Nat) (sets : List (List String)) (tls : List (List Item)) : String :=
+  joinWith "|" ((sets.zip tls).map fun (reps, tl) =>
+    -- as a client reads the written S list; the written Representations of the AdaptationSet first
+    s!"sn={first}@{joinWith "+" reps}:" ++ String.join ((expandS (buildS tl) 0).map fun p => s!"({p.1},{p.2})"))
 
 structure GSt where
   g : Gen
-  ass : List String
+  ass : List (List String)
 
 def genMpd (s : GSt) (n : Nat) : Option GSt × String :=
   match s.g.mpd n s.ass with
-  | .ok g' first last tls => (some { s with g := g' }, s!"mpd={first}..{last} " ++ tlStr first tls)
+  | .ok g' first last tls => (some { s with g := g' }, s!"mpd={first}..{last} " ++ tlStr first (listedSets s.g.bufs s.ass) tls)
   | .err r => (some s, s!"mpderr={r}")
   | .panic => (none, "PANIC")
 
@@ -116,7 +116,7 @@ def opGen (args : List String) : String :=
   match args with
   | [w, ass, ops] => match w.toNat? with
     | some w =>
-      let firstReps := (ass.splitOn "|").map (fun a => (a.splitOn "+").headD "")
-      joinWith ";" (runOps genOp { g := Gen.new w, ass := firstReps } (if ops = "-" then [] else ops.splitOn ","))
+      let sets := (ass.splitOn "|").map (fun a => a.splitOn "+")
+      joinWith ";" (runOps genOp { g := Gen.new w, ass := sets } (if ops = "-" then [] else ops.splitOn ","))
     | none => "bad-op"
   | _ => "bad-op"
